@@ -412,7 +412,9 @@ def normalize_power(array, power=1):
 
     """
     array = np.asarray(array)
-    return array * np.sqrt(power/np.sum(np.abs(array)**2))
+    # sum the squares in floating point: integer amplitudes (e.g. uint8 masks)
+    # would overflow
+    return array * np.sqrt(power/np.sum(np.abs(array).astype(float)**2))
 
 
 def sanitize_shape(shape):
